@@ -130,6 +130,103 @@ theorem C32_lastwins_false :
   ⟨[⟨"t", some "x"⟩, ⟨"t", none⟩], 0, ⟨"t", some "x"⟩, "x", [("*.*", .custom 7)],
     rfl, rfl, by decide⟩
 
+/-! ## what the selected provider is asked for (multi-part names)
+
+One provider object serves many references (wildcard keys, one object under
+several keys, several models of one meta-model, re-registration).  The
+statements below hold for every name, every match rule (`ruleSplit` = its
+`split` parameter), every history. -/
+
+/-- the delimiter the RREL provider built from a string / from the grammar uses
+for a reference: the `split` parameter of *that reference's* match rule, `.`
+when the rule has none -/
+def refDelimiter (r : Ref T) : String := r.ruleSplit.getD "."
+
+/-- **Delimiter per reference.** Whenever the selected provider is the RREL
+expression `t` (written in the grammar or registered as a string), `find` is
+asked for `t` with the name split at the delimiter of the reference's own match
+rule. -/
+theorem C32_rrel_call (view : P → Option (RrelObj T)) (d : Dict P T) (r : Ref T) (t : T)
+    (h : select Gen.providerOrder d r.cls r.attr r.g = .rrel t) :
+    callOf Gen.providerOrder view d r = .find t (refDelimiter r) (r.name.splitOn (refDelimiter r)) := by
+  simp only [callOf, h, RrelObj.call, delimiter, refDelimiter]
+  cases r.ruleSplit <;> rfl
+
+/-- **RREL strings, behaviour.** Under the hypotheses of `C32_rrel_string_same`
+the *call* made for the reference — expression, delimiter, name parts — is the
+one made with `s` written in the grammar at that reference, for every name and
+every match rule. -/
+theorem C32_rrel_string_same_call (view : P → Option (RrelObj T)) (parse : String → T)
+    (raw : List (String × RegVal P)) (d' : Dict P T) (cls attr s name : String) (rs : Option String)
+    (i : Nat) (hi : i < (documentedKeys cls attr).length)
+    (hreg : raw.lookup (documentedKeys cls attr)[i] = some (.str s))
+    (hfirst : ∀ j, (hj : j < i) → raw.lookup ((documentedKeys cls attr)[j]'(by omega)) = none) :
+    callOf Gen.providerOrder view (register parse raw) ⟨cls, attr, none, name, rs⟩ =
+      callOf Gen.providerOrder view d' ⟨cls, attr, some (parse s), name, rs⟩ := by
+  have h1 := C32_rrel_string_same parse raw d' cls attr s i hi hreg hfirst
+  have h2 : select Gen.providerOrder d' cls attr (some (parse s)) = .rrel (parse s) := rfl
+  rw [C32_rrel_call view _ ⟨cls, attr, none, name, rs⟩ (parse s) (by rw [h1, h2]),
+    C32_rrel_call view d' ⟨cls, attr, some (parse s), name, rs⟩ (parse s) h2]
+  rfl
+
+/-- **Shared provider object.** A registered RREL provider *object* `o` (one
+object, possibly bound to several keys) is asked, for every reference that
+selects it, with the delimiter of that reference (its own `split_string` if it
+was built with one). -/
+theorem C32_shared_object (view : P → Option (RrelObj T)) (d : Dict P T) (r : Ref T) (p : P)
+    (o : RrelObj T) (h : select Gen.providerOrder d r.cls r.attr r.g = .custom p) (hv : view p = some o) :
+    callOf Gen.providerOrder view d r =
+      .find o.tree (delimiter o.split r.ruleSplit) (r.name.splitOn (delimiter o.split r.ruleSplit)) := by
+  simp [callOf, h, hv, RrelObj.call]
+
+/-- **No memory in the provider.** One RREL provider object called for any list
+of references answers each as if it were the first, and is unchanged afterwards. -/
+theorem C32_call_stateless (self : RrelObj T) (refs : List (String × Option String)) :
+    (self.callSeq (P := P) refs).1 = refs.map (fun r => (self.call (P := P) r.1 r.2).1) ∧
+    (self.callSeq (P := P) refs).2 = self := by
+  induction refs with
+  | nil => exact ⟨rfl, rfl⟩
+  | cons r rest ih =>
+    obtain ⟨name, rs⟩ := r
+    obtain ⟨ih1, ih2⟩ := ih
+    constructor
+    · simp only [RrelObj.callSeq, List.map_cons]
+      rw [show (self.call (P := P) name rs).2 = self from rfl, ih1]
+    · simp only [RrelObj.callSeq]
+      rw [show (self.call (P := P) name rs).2 = self from rfl, ih2]
+
+/-- **History.** The calls made for the model of a step depend on the
+registrations made so far and on the references of that model only — not on
+the models loaded before. -/
+theorem C32_history (view : P → Option (RrelObj T)) (parse : String → T) (s : Step P T) :
+    ∀ (d : Dict P T) (pre pre' : List (Step P T)), pre.map (·.reg) = pre'.map (·.reg) →
+      (run Gen.providerOrder view parse d (pre ++ [s]))[pre.length]? =
+        (run Gen.providerOrder view parse d (pre' ++ [s]))[pre'.length]? := by
+  intro d pre
+  induction pre generalizing d with
+  | nil =>
+    intro pre' h
+    cases pre' with
+    | nil => rfl
+    | cons a l => simp at h
+  | cons a l ih =>
+    intro pre' h
+    cases pre' with
+    | nil => simp at h
+    | cons a' l' =>
+      simp only [List.map_cons, List.cons.injEq] at h
+      obtain ⟨ha, hl⟩ := h
+      simp only [List.cons_append, run, List.length_cons, List.getElem?_cons_succ, ha]
+      exact ih _ l' hl
+
+/-- `register_scope_providers` replaces the dictionary: the calls of a step that
+registers `raw` are those of `raw` alone. -/
+theorem C32_reregister (view : P → Option (RrelObj T)) (parse : String → T) (d : Dict P T)
+    (raw : List (String × RegVal P)) (refs : List (Ref T)) (rest : List (Step P T)) :
+    run Gen.providerOrder view parse d (⟨some raw, refs⟩ :: rest) =
+      refs.map (callOf Gen.providerOrder view (register parse raw)) ::
+        run Gen.providerOrder view parse (register parse raw) rest := rfl
+
 /-! non-vacuity -/
 example : select (P := Nat) (T := String) Gen.providerOrder
     [("*.*", .custom 0), ("R.*", .custom 1), ("*.t", .custom 2)] "R" "t" none = .custom 2 := by decide
@@ -140,5 +237,19 @@ example : select (P := Nat) (T := String) Gen.providerOrder
 example : select (P := Nat) (T := String) Gen.providerOrder
     (register id [("*.*", .prov 0), ("R.t", .str "^x")]) "R" "t" none =
     select Gen.providerOrder [("R.t", .custom 5)] "R" "t" (some "^x") := by decide
+
+/- `*.*` bound to one string serves `t=[A|FQN]` and `u=[A|PATH]` (`PATH[split='/']`) of one rule -/
+example : run (P := Nat) (T := String) Gen.providerOrder (fun _ => none) id []
+    [⟨some [("*.*", .str "pa")], [⟨"R", "t", none, "a.b", none⟩, ⟨"R", "u", none, "a/b", some "/"⟩]⟩,
+     ⟨none, [⟨"R", "u", none, "c/d", some "/"⟩, ⟨"R", "t", some "pb", "c::d", some "::"⟩]⟩] =
+    [[.find "pa" "." ("a.b".splitOn "."), .find "pa" "/" ("a/b".splitOn "/")],
+     [.find "pa" "/" ("c/d".splitOn "/"), .find "pb" "::" ("c::d".splitOn "::")]] := by
+  simp [run, callOf, register, convert, select, Gen.providerOrder, KeyExpr.eval, Piece.eval, lookupLoop, Dict.get?,
+    RrelObj.call, delimiter]
+example : callOf (P := Nat) (T := String) Gen.providerOrder
+    (fun n => if n = 0 then some ⟨"pe", some "."⟩ else none)
+    [("R.*", .custom 0), ("*.*", .custom 1)] ⟨"R", "u", none, "a/b.c", some "/"⟩ =
+    .find "pe" "." ("a/b.c".splitOn ".") := by
+  simp [callOf, select, Gen.providerOrder, KeyExpr.eval, Piece.eval, lookupLoop, Dict.get?, RrelObj.call, delimiter]
 
 end Select
